@@ -29,12 +29,12 @@
   using one future: client B destroys `f` while client A sits at `sWaitCwait (f+2)`; a worker then sets the re-created
   signal and A enters the wait set of a set signal with no broadcast pending).
 
-  OPEN:
-    * the quiescence side condition of `sigClean_recreated` ("when `~Future` runs `destroyF f`, no other thread is
-      inside the critical section of signal `f + 2`") for `cfg.WellFormed` configurations and the repaired order.  It
-      is a fact about the Future hand-shake (one client per future, `join` before `~Future`, `Signal::set` unlocks
-      last), not about the Signal layer; with it `SigClean` holds for all future signals in all reachable states.  In
-      the ORIGINAL order it is false (the known defect: broadcast after unlock on a destroyed condition variable).
+  OPEN: nothing in this file.  The quiescence side condition of `sigClean_recreated` ("when `~Future` runs `destroyF f`,
+    no other thread is inside the critical section of signal `f + 2`") is a fact about the Future hand-shake; it is
+    discharged in `Progress7.lean` from `destroy_no_signal_user` of `Handshake.lean` (cfg.WellFormed, repaired order),
+    giving `sigClean_always`, `sig_mutex_exclusive_always`, `waiter_of_set_signal_has_pending_broadcast_always` for
+    EVERY signal in EVERY reachable state.  For the ORIGINAL order and for ill-formed configurations the statements
+    about re-created future signals are false (broadcast after unlock on a destroyed condition variable).
 -/
 import Nstd.Future.Progress6
 namespace Nstd.Future
